@@ -228,6 +228,20 @@ def install_model_api_counters(ctx):
     Model.batch_evaluate_log_likelihood = batch_evaluate_log_likelihood
 
 
+def install_loop_notes(ctx):
+    from nessai.samplers.nestedsampler import NestedSampler
+    from nessai.samplers.importancesampler import ImportanceNestedSampler
+
+    for cls in (NestedSampler, ImportanceNestedSampler):
+        orig = cls.nested_sampling_loop
+
+        def nested_sampling_loop(self, _orig=orig):
+            ctx.nb.note("loop_enter", iteration=int(self.iteration), finalised=bool(self.finalised))
+            return _orig(self)
+
+        cls.nested_sampling_loop = nested_sampling_loop
+
+
 def materialise_kwargs(ctx, scn, model):
     kwargs = dict(scn.get("kwargs", {}))
     pool = scn.get("pool")
@@ -286,6 +300,7 @@ def run(world, inc, lab_dir, disk_dir, t0):
         disk.install()
         install_checkpoint_seam(ctx, disk, resume_name)
         install_model_api_counters(ctx)
+        install_loop_notes(ctx)
 
         SEAM.configure(clk, nb, plan)
         SEAM.on_violation = ctx.violation
@@ -330,6 +345,9 @@ def run(world, inc, lab_dir, disk_dir, t0):
         if ctx.resumed and scn["sampler"] == "ins":
             with ctx.guard():
                 ctx.on_restored(fs.ns)
+                if "ins" in mons:
+                    mons["ins"].check_all(fs.ns, "resume")
+                    ctx.probe("ins_density_checked_after_resume")
         if world.get("stop_after_construct") or (
                 world.get("stop_after_construct_from") is not None
                 and inc >= world["stop_after_construct_from"]):
